@@ -40,7 +40,7 @@ LIB_DIRS = {
 # symbols of the code under test that the fiber scheduler takes over at link time (--wrap)
 WRAPPED = (["pthread_mutex_lock", "pthread_mutex_unlock", "pthread_mutex_trylock",
             "pthread_rwlock_rdlock", "pthread_rwlock_wrlock", "pthread_rwlock_tryrdlock",
-            "pthread_rwlock_trywrlock", "pthread_rwlock_unlock"] +
+            "pthread_rwlock_trywrlock", "pthread_rwlock_unlock", "__cxa_thread_atexit"] +
            ["__tsan_atomic%d_%s" % (w, op) for w in (8, 16, 32, 64)
             for op in ("load", "store", "exchange", "fetch_add", "fetch_sub", "fetch_and", "fetch_or",
                        "fetch_xor", "fetch_nand", "compare_exchange_strong", "compare_exchange_weak")])
